@@ -389,6 +389,8 @@ def api_verified(ctx, rule):
     config_at_call_time(ctx, rule, classes=('Unit', 'Substance'))
     from .configtime import late_binding_closures
     late_binding_closures(ctx, rule, classes=('Unit', 'Substance'))
+    from .configtime import no_state_outside_objects
+    no_state_outside_objects(ctx, rule, classes=('Unit', 'Substance'))
     convert_from_cells(ctx, rule)
     wrappers(ctx, rule)
     storage_pair(ctx, rule, rule)
